@@ -31,10 +31,11 @@ def pool(tier):
 
     def add(c, src):
         P.append((c, src))
-    ints = [0, 1, -1, 2, -2, 3, -3, 7, -7, 10, 2 ** 31, 2 ** 53 + 1, 2 ** 63 - 1, 2 ** 63, -2 ** 63, -2 ** 63 - 1,
+    # bases whose small powers land just below / inside / above [2^63, 2^64): 255^8, 65535^4, (2^32-1)^2, 3037000500^2
+    ints = [0, 1, -1, 2, -2, 3, -3, 7, -7, 10, 15, -255, 255, 256, 65535, 2 ** 32 - 1, 3037000499, 3037000500, 2 ** 31, 2 ** 53 + 1, 2 ** 63 - 1, 2 ** 63, -2 ** 63, -2 ** 63 - 1,
             2 ** 64, 2 ** 100 + 1, -(2 ** 100), 10 ** 30]
     if tier == "tiny":
-        ints = [0, 1, -1, 2, -3, 7, 2 ** 53 + 1, 2 ** 63, -2 ** 63 - 1, 2 ** 100 + 1]
+        ints = [0, 1, -1, 2, -3, 7, 255, 65535, 2 ** 32 - 1, 3037000500, 2 ** 53 + 1, 2 ** 63, -2 ** 63 - 1, 2 ** 100 + 1]
     for v in ints:
         add(cI(v), lit_int(v))
     add(cI(3), "((2^70+3)-2^70)")
@@ -261,7 +262,7 @@ def cases(tier, shard, nshards):
                 yield Case(steps, {"k": "bin", "op": op, "a": ca, "b": cb, "law": law}, iso=False)
         n += 1
         if n % nshards == shard:
-            for e in range(-3, 6):
+            for e in list(range(-3, 6)) + [8, -8, 16, 63, 64]:
                 yield Case(["%s ^ %s" % (sa, lit_int(e))], {"k": "pow", "a": ca, "e": e}, iso=False)
             for fn in UNARY:
                 src = "-(%s)" % sa if fn == "neg" else "%s(%s)" % (fn, sa)
